@@ -13,7 +13,7 @@ class C11(Cfg):
     model_exe = "dmodel_sync"
     design_ref = "DESIGN.md §6 C11, App. A.3, A.5, A.6"
     technique = ("Lean 4 invariant proofs over the executable model of local writes, writer batches and pulls: for the intended behaviour (Defects.none) and for "
-                 "every model that consults the deletion log with every other switch as in the code (#18 repaired) + decide-checked "
+                 "every model that consults the deletion log with every other switch as in the code — the code as it is since the repair of #18 — + decide-checked "
                  "traces for the code before that repair + correspondence run of the model against 3-4 real instances with deletions racing with pulls + "
                  "an independent oracle on every dump (a peer that stores the deletion record of a row or of a reference never shows that row / reference again) and after "
                  "quiescence (record everywhere, row — at any version — and reference nowhere); scenario families: reference deletion racing with an unaware edit of the "
@@ -34,7 +34,10 @@ class C11(Cfg):
                   "compared (room-summary-compares-first-entity-only), members holding every right (#19), no two records of one row on one day or batches not keyed by row id, logs = logs of content (C09); "
                   "for pulls that are joins, after quiescence the row is shown nowhere and every record is everywhere (C11_converged_absent). "
                   "Open after the repair: a row that changes room (records are per room): an older version held by a peer in another room is fetched next to the record of a later version (C11_breaks_syncDeletionRoomScoped, model trace). "
-                  "For the code as it is (before the repair) the statement is FALSE: the schedule delete@A, B<-A, B<-C, A<-B brings the row back on B and on A (decide-checked model trace, replayed on three real instances: corpus/C11).")
+                  "The code as it is consults the deletion log (repair of #18, Node::filter_existing_in_room): Defects.asImplemented is such a model and (b), (c) are stated for it "
+                  "(C11_pull_keeps_deleted_asImplemented, C11_invariant_asImplemented, C11_deleted_stays_deleted_asImplemented, C11_invariant_rooms_asImplemented, C11_deleted_stays_deleted_rooms_asImplemented). "
+                  "Before the repair the statement was FALSE: the schedule delete@A, B<-A, B<-C, A<-B brought the row back on B and on A (C11_breaks_ingestIgnoresTombstones, regression replay corpus/C11/deleted-row-comes-back.ops: "
+                  "reverting the repair makes the check report deleted-row-back-after-pull).")
     level_note = ("Trusted: Lean kernel (+propext, Classical.choice, Quot.sound), the hand-written model lean/DiscretModel/Model/Sync.lean and the harness. "
                   "Modelled and exercised: deletion.rs, validate_deletion, delete_nodes/validate_node_deletions/NodeDeletionEntry::delete_all, filter_existing, add_nodes, synchronise_day. "
                   "Defects.none is stronger than the statement (a record removes newer versions too, in every room). Reference deletions and dated rights (EntityRight::valid_from) are modelled and exercised; the proved invariants are about rows; "
